@@ -118,14 +118,24 @@ class NativeSym:
 
 
 def native_outcome(thunk):
+    import contextlib
+    import io
     try:
-        return ("return", thunk())
+        with contextlib.redirect_stdout(io.StringIO()):
+            return ("return", thunk())
     except BaseException as e:  # noqa
         return ("raise", e)
 
 
 def same(a, b):
-    """exact structural equality (no tolerance)"""
+    """exact structural equality (no tolerance); lazy filter/map objects are compared by their contents, callables
+    are not compared"""
+    if isinstance(a, (filter, map)):
+        a = list(a)
+    if isinstance(b, (filter, map)):
+        b = list(b)
+    if callable(a) and callable(b) and not isinstance(a, type):
+        return True
     if type(a) is not type(b) and not (isinstance(a, (int, float)) and isinstance(b, (int, float))):
         if not (isinstance(a, tuple) and isinstance(b, tuple) and type(a).__name__ == type(b).__name__):
             return False
@@ -181,37 +191,38 @@ def run_native(ob):
     return last
 
 
-def run_native_one(ob, c, cfg, model):
+def run_native_one(ob, c, cfg, model, symf=None):
     try:
-        S1 = NativeSym(model)
+        symf = symf or (lambda: NativeSym(model))
+        S1 = symf()
         args1 = c.inputs(S1, cfg)
         fn = resolve(c.target)
         shown = {k: show(v) for k, v in args1.items()}
         real = native_outcome(lambda: fn(**args1))
         res = {"real": describe(real), "inputs": shown}
         if ob.get("kind") == "frame":
-            S0 = NativeSym(model)
+            S0 = symf()
             args0 = c.inputs(S0, cfg)
             res["reproduced"] = any(not same(args1[a], args0[a]) for a in (c.frame or []))
             return res
         if ob.get("kind") == "raises":
+            ns = dict(resolve(c.spec_module).__dict__)
+            ns.update(args1)
+            ns["old"] = c.inputs(symf(), cfg)
             if real[0] == "raise":
                 en = type(real[1]).__name__
                 if en not in (c.raises or {}):
                     res["reproduced"] = True
                 else:
-                    ns = dict(resolve(c.spec_module).__dict__)
-                    ns.update(args1)
                     res["reproduced"] = not bool(eval(c.raises[en], ns))
             else:
-                ns = dict(resolve(c.spec_module).__dict__)
-                ns.update(args1)
                 res["reproduced"] = any(bool(eval(t, ns)) for t in (c.raises or {}).values())
             return res
         if ob.get("kind") == "ensures":
             text = ob["detail"].split(" | ")[0]
             ns = dict(resolve(c.spec_module).__dict__)
             ns.update(args1)
+            ns["old"] = c.inputs(symf(), cfg)
             if real[0] != "return":
                 res["reproduced"] = False
                 res["note"] = "real function raised"
@@ -221,7 +232,7 @@ def run_native_one(ob, c, cfg, model):
             res["ensures_value"] = bool(val)
             res["reproduced"] = not bool(val)
             return res
-        S2 = NativeSym(model)
+        S2 = symf()
         args2 = c.inputs(S2, cfg)
         sf = resolve(c.spec)
         sp = native_outcome(lambda: sf(**args2))
@@ -263,6 +274,15 @@ def main(argv):
     if rep.get("kind") == "bounded":
         from pyvc import bounded
         return bounded.replay(rep)
+    if rep.get("kind") == "fuzz":
+        from pyvc import fuzz
+        nat = fuzz.replay_fuzz(rep)
+        print(json.dumps(nat, indent=1, default=str))
+        if nat.get("reproduced"):
+            print("VIOLATION property=%s replay=%s" % (rep["property"], argv[0]))
+            return 1
+        print("not reproduced on the current tree")
+        return 0
     nat = run_native(rep["ob"])
     print(json.dumps(nat, indent=1, default=str))
     if nat.get("reproduced"):
